@@ -201,7 +201,12 @@ pub fn parse_group_file<R: Read + Seek>(
                 // MOGP contains sub-chunks - we need to parse them
                 // The remaining chunk data contains nested chunks
                 // MogpHeader is 68 bytes when serialized (not std::mem::size_of due to Vec fields)
-                let data_size = chunk_info.size - 68;
+                let data_size = chunk_info.size.checked_sub(68).ok_or_else(|| {
+                    format!(
+                        "MOGP chunk of {} bytes is smaller than its 68-byte header",
+                        chunk_info.size
+                    )
+                })?;
                 let mut data_reader = std::io::Cursor::new(read_chunk_data(reader, data_size)?);
 
                 // Parse nested chunks within MOGP
@@ -393,8 +398,15 @@ fn read_chunk_data<R: Read>(
     reader: &mut R,
     size: u32,
 ) -> std::result::Result<Vec<u8>, Box<dyn std::error::Error>> {
-    let mut data = vec![0u8; size as usize];
-    reader.read_exact(&mut data)?;
+    // `size` is untrusted: read at most `size` bytes, growing the buffer with the real data
+    let mut data = Vec::new();
+    reader.by_ref().take(size as u64).read_to_end(&mut data)?;
+    if data.len() != size as usize {
+        return Err(Box::new(std::io::Error::new(
+            std::io::ErrorKind::UnexpectedEof,
+            format!("chunk declares {size} bytes but only {} follow", data.len()),
+        )));
+    }
     Ok(data)
 }
 
